@@ -64,6 +64,10 @@ def want_forms(printed, msg, cls):
         'nontraceback': 'some expected output',
         'finalonly': ll,          # just the 'Type: message' line without a header: not a traceback block
     }
+    # a wildcard that elides the middle of the exception's class name (json...Error for json.decoder.JSONDecodeError)
+    name = printed.rsplit('.', 1)[-1]
+    if len(name) >= 6 and ll.startswith(printed):
+        forms['ellipsis_in_type'] = HDR + '\n' + printed[:len(printed) - len(name)] + name[:2] + '...' + name[-3:] + ll[len(printed):]
     if printed.startswith('pkg.mod.'):
         forms['unqualified'] = HDR + '\n' + ll.replace('pkg.mod.', '', 1)
     if '\n\n' in ll:
@@ -101,6 +105,9 @@ def expected(form, flags, cls, msg):
         return ('fail', 'gotwant')
     if form == 'unqualified':
         return ('pass', None) if ied else ('fail', 'gotwant')
+    if form == 'ellipsis_in_type':
+        # the full comparison decides; the type names as written differ, so IGNORE_EXCEPTION_DETAIL adds nothing
+        return ('fail', 'gotwant') if noell else ('pass', None)
     if form in ('ellipsis', 'manydots'):
         if noell:
             return ('pass', None) if ied else ('fail', 'gotwant')
